@@ -23,6 +23,8 @@ package types
 //@   ensures[touch] (b.ToBlock + 1 >= other.FromBlock && other.ToBlock + 1 >= b.FromBlock) ==> result.IsEmpty()
 //@   ensures[gap-right] b.ToBlock + 1 < other.FromBlock ==> result.FromBlock == b.ToBlock + 1 && result.ToBlock == other.FromBlock - 1
 //@   ensures[gap-left] other.ToBlock + 1 < b.FromBlock ==> result.FromBlock == other.ToBlock + 1 && result.ToBlock == b.FromBlock - 1
+//@   ensures[touch-is-zero] (b.ToBlock + 1 >= other.FromBlock && other.ToBlock + 1 >= b.FromBlock) ==> result.FromBlock == 0 && result.ToBlock == 0
+//@   ensures[bounded] result.ToBlock - result.FromBlock + 1 < 18446744073709551616
 
 // ---- sub-range filter (C17): counting-function specification of an order-preserving filter
 
